@@ -198,4 +198,41 @@ theorem request_scheduled_once (s : State) (c : CId) (new : Infr) (hs : sortedQ 
     · intro c' hc'
       rw [hQ, countIn_tqAppend _ _ _ _ hsort, hoth c' hc']; simp [hc']
 
+/-! ### BeginBlock and the schedule -/
+
+theorem set_infrQ (s : State) (x : Consumer) : (s.set x).infrQ = s.infrQ := by
+  unfold State.set; split <;> rfl
+
+theorem switchLoop_infrQ (ids : List CId) (s : State) :
+    (ids.foldl (fun s c =>
+      let x := s.get c
+      match x.qinfr with
+      | some q => s.set { x with infr := some q, qinfr := none }
+      | none => s) s).infrQ = s.infrQ := by
+  induction ids generalizing s with
+  | nil => rfl
+  | cons c rest ih =>
+    simp only [List.foldl_cons]
+    rw [ih]
+    cases hq : (s.get c).qinfr with
+    | none => rfl
+    | some q => exact set_infrQ _ _
+
+/-- applying the due changes never touches the schedule: after BeginBlock it is exactly what the
+    consumption left -/
+theorem beginBlockInfraction_infrQ (s : State) :
+    (beginBlockInfraction s).infrQ = (tqConsume s.infrQ s.now 200).2 := by
+  unfold beginBlockInfraction
+  exact switchLoop_infrQ _ _
+
+/-- per consumer: changes applied in this block plus changes still scheduled are the changes that
+    were scheduled — a queued change is applied once or still waits, never both and never neither -/
+theorem switch_counts_conserved (s : State) (c : CId) :
+    ((tqConsume s.infrQ s.now 200).1.filter (· == c)).length + countIn (beginBlockInfraction s).infrQ c
+      = countIn s.infrQ c := by
+  rw [beginBlockInfraction_infrQ]
+  have h := congrArg (fun l => (l.filter (· == c)).length) (tqConsume_conserves s.infrQ s.now 200)
+  simp only [List.filter_append, List.length_append] at h
+  exact h
+
 end ICS.Props.C20
